@@ -338,7 +338,7 @@ def check_tags(ck):
 
 def run(ck: Check):
     ck.trusted = TRUST
-    ck.prove(extra_targets=["Corr/Check_cli.v"])
+    ck.prove(extra_targets=["Corr/Check_cli.v", "Config/CliExamples.v"])
     cases = [gen_case(ck.rng("case", i)) for i in range(ck.n(900, 20000))]
     obs = run_cases(ck, cases)
     terms = [case_term(c, o) for c, o in zip(cases, obs)]
